@@ -80,11 +80,21 @@ func NewModules() *Modules {
 // e.g., foo.yang is named foo).  An error is returned if the file is not
 // found or there was an error parsing the file.
 func (ms *Modules) Read(name string) error {
+	npath := len(ms.Path)
 	name, data, err := ms.findFile(name)
 	if err != nil {
 		return err
 	}
-	return ms.Parse(data, name)
+	if err := ms.Parse(data, name); err != nil {
+		// A file that was not taken leaves nothing behind: the directory
+		// it was found in does not stay on the search path.
+		for _, p := range ms.Path[npath:] {
+			delete(ms.pathMap, p)
+		}
+		ms.Path = ms.Path[:npath]
+		return err
+	}
+	return nil
 }
 
 // Parse parses data as YANG source and adds it to ms.  The name should reflect
